@@ -1,6 +1,6 @@
 //go:build verif
 
-package fulltext
+package c51
 
 import (
 	"context"
@@ -12,23 +12,27 @@ import (
 
 	nd "github.com/dolthub/go-mysql-server/internal/zzverifnd"
 	"github.com/dolthub/go-mysql-server/sql"
+	"github.com/dolthub/go-mysql-server/sql/fulltext"
 	"github.com/dolthub/go-mysql-server/sql/types"
 )
 
+// Package c51, storage-double harnesses (the real-memory ones are in
+// zz_verif_c51_memory*.go).
+//
 // C51, index-maintenance half: the REAL fulltext.CreateFulltextIndexes /
-// GetKeyColumns / NewSchema / CreateEditor / CreateMultiTableEditor /
+// GetKeyColumns / NewSchema / fulltext.CreateEditor / fulltext.CreateMultiTableEditor /
 // TableEditor.Insert / Update / Delete / getRowCount / updateGlobalCount /
-// HashRow run against slice-backed table doubles (a parent table and the
+// fulltext.HashRow run against slice-backed table doubles (a parent table and the
 // five pseudo-index tables). After every DML operation the four index
 // tables are compared with what the parent rows alone prescribe under the
-// reference tokeniser of zz_verif_c51.go.
+// reference tokeniser of harness/sql/fulltext/zz_verif_c51.go.
 //
 // What each table must hold (schema.go comments + fulltext.go:34-45), for
 // the multiset R of parent rows, key(r) = the row's key columns (PRIMARY /
-// UNIQUE NOT NULL key) or HashRow(r) (keyless), word equality under the
+// UNIQUE NOT NULL key) or fulltext.HashRow(r) (keyless), word equality under the
 // column collation:
 //
-//	ROW_COUNT    one row (HashRow(v), multiplicity of v in R, number of distinct words of v) per distinct row value v
+//	ROW_COUNT    one row (fulltext.HashRow(v), multiplicity of v in R, number of distinct words of v) per distinct row value v
 //	POSITION     one row (word text, key(v), byte offset) per distinct v and word occurrence in v
 //	DOC_COUNT    one row (word, key(v), occurrences of the word in v) per distinct v and distinct word of v
 //	GLOBAL_COUNT one row (word, number of rows of R - duplicates counted - that contain the word) per word contained in some row
@@ -44,11 +48,11 @@ type c51eIndex struct {
 	exprs     []string
 	unique    bool
 	ft        bool
-	names     IndexTableNames
-	keyCols   KeyColumns
+	names     fulltext.IndexTableNames
+	keyCols   fulltext.KeyColumns
 }
 
-var _ Index = (*c51eIndex)(nil)
+var _ fulltext.Index = (*c51eIndex)(nil)
 
 func (i *c51eIndex) ID() string            { return i.id }
 func (i *c51eIndex) Database() string      { return "db" }
@@ -73,10 +77,10 @@ func (i *c51eIndex) CanSupport(*sql.Context, ...sql.Range) bool { return true }
 func (i *c51eIndex) CanSupportOrderBy(sql.Expression) bool      { return false }
 func (i *c51eIndex) CoversColumns([]string) bool                { return false }
 func (i *c51eIndex) PrefixLengths() []uint16                    { return nil }
-func (i *c51eIndex) FullTextTableNames(*sql.Context) (IndexTableNames, error) {
+func (i *c51eIndex) FullTextTableNames(*sql.Context) (fulltext.IndexTableNames, error) {
 	return i.names, nil
 }
-func (i *c51eIndex) FullTextKeyColumns(*sql.Context) (KeyColumns, error) {
+func (i *c51eIndex) FullTextKeyColumns(*sql.Context) (fulltext.KeyColumns, error) {
 	return i.keyCols, nil
 }
 
@@ -105,8 +109,8 @@ type c51eTable struct {
 	deleteMisses int
 }
 
-var _ EditableTable = (*c51eTable)(nil)
-var _ IndexAlterableTable = (*c51eTable)(nil)
+var _ fulltext.EditableTable = (*c51eTable)(nil)
+var _ fulltext.IndexAlterableTable = (*c51eTable)(nil)
 var _ sql.StatisticsTable = (*c51eTable)(nil)
 var _ sql.PrimaryKeyTable = (*c51eTable)(nil)
 var _ sql.ForeignKeyEditor = (*c51eTable)(nil)
@@ -167,7 +171,7 @@ func (t *c51eTable) DropIndex(*sql.Context, string) error {
 func (t *c51eTable) RenameIndex(*sql.Context, string, string) error {
 	return fmt.Errorf("c51 double: RenameIndex is not expected")
 }
-func (t *c51eTable) CreateFulltextIndex(_ *sql.Context, def sql.IndexDef, keyCols KeyColumns, names IndexTableNames) error {
+func (t *c51eTable) CreateFulltextIndex(_ *sql.Context, def sql.IndexDef, keyCols fulltext.KeyColumns, names fulltext.IndexTableNames) error {
 	exprs := make([]string, len(def.Columns))
 	for i, c := range def.Columns {
 		exprs[i] = t.name + "." + c.Name
@@ -190,15 +194,21 @@ func c51eRowEq(a, b sql.Row) bool {
 }
 
 // c51eSameCell: the two cells are equal under the column's type. Identical
-// values are equal under every type (and collation); only different strings
-// need the type's comparison.
+// values are equal under every type (and collation), two different integers
+// of the same Go type are not; everything else (different texts, NULL against
+// a value, mixed Go types) is decided by the type's comparison.
 func c51eSameCell(ctx *sql.Context, typ sql.Type, a, b interface{}) bool {
 	if a == b {
 		return true
 	}
-	if _, isStr := a.(string); !isStr {
-		if _, isStr = b.(string); !isStr {
-			return false // nil / integers of the same Go type that differ
+	switch a.(type) {
+	case int64:
+		if _, ok := b.(int64); ok {
+			return false
+		}
+	case uint64:
+		if _, ok := b.(uint64); ok {
+			return false
 		}
 	}
 	c, err := typ.Compare(ctx, a, b)
@@ -327,7 +337,7 @@ func c51eInLookup(ctx *sql.Context, lookup sql.IndexLookup, row sql.Row) bool {
 // new index).
 type c51eDb struct{ tables []*c51eTable }
 
-var _ Database = (*c51eDb)(nil)
+var _ fulltext.Database = (*c51eDb)(nil)
 
 func (d *c51eDb) Name() string { return "db" }
 func (d *c51eDb) get(name string) *c51eTable {
@@ -366,9 +376,9 @@ func (d *c51eDb) CreateTable(_ *sql.Context, name string, sch sql.PrimaryKeySche
 	d.tables = append(d.tables, t)
 	return nil
 }
-func (d *c51eDb) CreateFulltextTableNames(_ *sql.Context, parent string, index string) (IndexTableNames, error) {
+func (d *c51eDb) CreateFulltextTableNames(_ *sql.Context, parent string, index string) (fulltext.IndexTableNames, error) {
 	p := parent + "_" + index
-	return IndexTableNames{
+	return fulltext.IndexTableNames{
 		Config:      parent + "_fts_config",
 		Position:    p + "_fts_position",
 		DocCount:    p + "_fts_doc_count",
@@ -382,7 +392,7 @@ func (d *c51eDb) CreateFulltextTableNames(_ *sql.Context, parent string, index s
 // Parent table kinds.
 const (
 	c51eKindPk       = 0 // (k BIGINT PRIMARY KEY, doc TEXT), FULLTEXT ft(doc)
-	c51eKindKeyless  = 1 // (n BIGINT, doc TEXT), no key: rows are keyed by HashRow; FULLTEXT ft(doc)
+	c51eKindKeyless  = 1 // (n BIGINT, doc TEXT), no key: rows are keyed by fulltext.HashRow; FULLTEXT ft(doc)
 	c51eKindUnique   = 2 // (k BIGINT NOT NULL UNIQUE, doc TEXT), no primary key; FULLTEXT ft(doc)
 	c51eKindTwoIndex = 3 // (doc TEXT, doc2 TEXT), no key; FULLTEXT ft(doc, doc2) and FULLTEXT ft2(doc2)
 )
@@ -467,13 +477,13 @@ func c51eNewFixture(id string, kind int, ci bool, pre []sql.Row) *c51eFixture {
 	}
 	f.db = &c51eDb{tables: []*c51eTable{f.parent}}
 
-	err := CreateFulltextIndexes(f.ctx, f.db, f.parent, nil, defs)
+	err := fulltext.CreateFulltextIndexes(f.ctx, f.db, f.parent, nil, defs)
 	nd.Assert(id+".create-index.no-error", err == nil)
 	if err != nil {
 		return nil
 	}
 	var config *c51eTable
-	var tableSets []TableSet
+	var tableSets []fulltext.TableSet
 	for _, idx := range f.parent.idxs {
 		if !idx.IsFullText() {
 			continue
@@ -501,26 +511,26 @@ func c51eNewFixture(id string, kind int, ci bool, pre []sql.Row) *c51eFixture {
 		kc := ftx.keyCols
 		switch kind {
 		case c51eKindPk:
-			nd.Assert(id+".key-columns", kc.Type == KeyType_Primary && len(kc.Positions) == 1 && kc.Positions[0] == 0)
+			nd.Assert(id+".key-columns", kc.Type == fulltext.KeyType_Primary && len(kc.Positions) == 1 && kc.Positions[0] == 0)
 		case c51eKindUnique:
-			nd.Assert(id+".key-columns", kc.Type == KeyType_Unique && len(kc.Positions) == 1 && kc.Positions[0] == 0)
+			nd.Assert(id+".key-columns", kc.Type == fulltext.KeyType_Unique && len(kc.Positions) == 1 && kc.Positions[0] == 0)
 		default:
-			nd.Assert(id+".key-columns", kc.Type == KeyType_None && len(kc.Positions) == 0)
+			nd.Assert(id+".key-columns", kc.Type == fulltext.KeyType_None && len(kc.Positions) == 0)
 		}
 		f.sets = append(f.sets, set)
-		tableSets = append(tableSets, TableSet{Index: ftx, Position: set.pos, DocCount: set.doc, GlobalCount: set.glob, RowCount: set.rowc})
+		tableSets = append(tableSets, fulltext.TableSet{Index: ftx, Position: set.pos, DocCount: set.doc, GlobalCount: set.glob, RowCount: set.rowc})
 	}
 	nd.Assert(id+".create-index.index-declared", len(f.sets) == len(defs))
 	if len(f.sets) != len(defs) {
 		return nil
 	}
 	// as memory.Table.newFulltextTableEditor does
-	ftEditor, err := CreateEditor(f.ctx, f.parent, config, tableSets...)
+	ftEditor, err := fulltext.CreateEditor(f.ctx, f.parent, config, tableSets...)
 	nd.Assert(id+".create-editor.no-error", err == nil)
 	if err != nil {
 		return nil
 	}
-	f.editor, err = CreateMultiTableEditor(f.ctx, f.parent, ftEditor)
+	f.editor, err = fulltext.CreateMultiTableEditor(f.ctx, f.parent, ftEditor)
 	nd.Assert(id+".create-multi-editor.no-error", err == nil)
 	if err != nil {
 		return nil
@@ -554,11 +564,11 @@ func c51eDocument(row sql.Row, cols []int) string {
 	return doc
 }
 
-// c51eHashMemo: HashRow is a pure function of the row value; the oracle asks
+// c51eHashMemo: fulltext.HashRow is a pure function of the row value; the oracle asks
 // for the same few rows after every operation.
 var c51eHashMemo = map[string]string{}
 
-// c51eHashOf: the real HashRow of a parent row (cells nil, int64 or string).
+// c51eHashOf: the real fulltext.HashRow of a parent row (cells nil, int64 or string).
 func c51eHashOf(ctx *sql.Context, r sql.Row) (string, error) {
 	key := ""
 	for _, c := range r {
@@ -570,13 +580,13 @@ func c51eHashOf(ctx *sql.Context, r sql.Row) (string, error) {
 		case string:
 			key += "\x00S" + v
 		default:
-			return HashRow(ctx, r)
+			return fulltext.HashRow(ctx, r)
 		}
 	}
 	if h, ok := c51eHashMemo[key]; ok {
 		return h, nil
 	}
-	h, err := HashRow(ctx, r)
+	h, err := fulltext.HashRow(ctx, r)
 	if err == nil {
 		c51eHashMemo[key] = h
 	}
@@ -587,28 +597,19 @@ func c51eHashOf(ctx *sql.Context, r sql.Row) (string, error) {
 // asks for the same few documents after every operation.
 var c51eWordMemo = map[string][]c51eWord{}
 
-// c51eRefWords: the words of a document by the reference tokenisation.
+// c51eRefWords: the words of a document by the reference tokenisation
+// (fulltext.ZzC51RefWords: the definition the tokeniser harnesses check the
+// parser against).
 func c51eRefWords(s string) []c51eWord {
 	if ws, ok := c51eWordMemo[s]; ok {
 		return ws
 	}
-	ws := c51eRefWordsOf(s)
+	var ws []c51eWord
+	for _, w := range fulltext.ZzC51RefWords(s) {
+		ws = append(ws, c51eWord{text: w.Text, pos: w.Pos})
+	}
 	c51eWordMemo[s] = ws
 	return ws
-}
-
-func c51eRefWordsOf(s string) []c51eWord {
-	d := []byte(s)
-	in := c51InWord(d)
-	var out []c51eWord
-	for st := 0; st+c51MinWord <= len(d); st++ {
-		for e := st + c51MinWord; e <= len(d); e++ {
-			if c51Run(in, st, e) {
-				out = append(out, c51eWord{text: s[st:e], pos: st})
-			}
-		}
-	}
-	return out
 }
 
 // c51eSameWord: word equality under the collation (ASCII words: general_ci
@@ -620,7 +621,7 @@ func c51eSameWord(ci bool, a, b string) bool {
 	for i := 0; i < len(a); i++ {
 		x, y := a[i], b[i]
 		if ci {
-			x, y = c51Fold(x), c51Fold(y)
+			x, y = fulltext.ZzC51Fold(x), fulltext.ZzC51Fold(y)
 		}
 		if x != y {
 			return false
@@ -688,18 +689,18 @@ var c51eVocabulary = []string{"aaa", "AAA", "bbb", "ccc"}
 // check compares the index tables of every FULLTEXT index with the parent rows.
 func (f *c51eFixture) check() {
 	for _, set := range f.sets {
-		ZzC51CheckIndexTables(f.ctx, set.id, f.ci, f.keyless(), f.parent.rows, set.cols,
+		c51CheckIndexTables(f.ctx, set.id, f.ci, f.keyless(), f.parent.rows, set.cols,
 			set.rowc.rows, set.pos.rows, set.doc.rows, set.glob.rows)
 	}
 }
 
-// ZzC51CheckIndexTables compares the four tables of one FULLTEXT index
+// c51CheckIndexTables compares the four tables of one FULLTEXT index
 // (their rows as read from the storage) with what the parent rows prescribe.
 // rows: the parent rows (cells nil, int64 or string); cols: the index's
-// source columns; keyless: entries are keyed by HashRow, else by the parent's
-// first column; ci: words compare case-insensitively. Exported for the
-// harness-only package zzverif/c51 (real in-memory tables).
-func ZzC51CheckIndexTables(ctx *sql.Context, id string, ci, keyless bool, rows []sql.Row, cols []int, rowc, pos, doc, glob []sql.Row) {
+// source columns; keyless: entries are keyed by fulltext.HashRow, else by the parent's
+// first column; ci: words compare case-insensitively. Used by the
+// storage-double harnesses and by the real-memory harnesses.
+func c51CheckIndexTables(ctx *sql.Context, id string, ci, keyless bool, rows []sql.Row, cols []int, rowc, pos, doc, glob []sql.Row) {
 	n := len(rows)
 	hashes := make([]string, n)
 	keys := make([]interface{}, n)
@@ -713,7 +714,7 @@ func ZzC51CheckIndexTables(ctx *sql.Context, id string, ci, keyless bool, rows [
 			keys[i] = r[0]
 		}
 	}
-	// HashRow identifies the row value (64 hex digits; NULL differs from '')
+	// fulltext.HashRow identifies the row value (64 hex digits; NULL differs from '')
 	hashOk := true
 	first := make([]bool, n)
 	mult := make([]uint64, n)
@@ -973,17 +974,21 @@ func VerifC51EditPrimaryKey() {
 }
 
 // VerifC51EditKeyless: parent (n BIGINT, doc TEXT) without any key: rows
-// keyed by HashRow, duplicate rows counted in ROW_COUNT. n from {1, 2}, all 7
-// document cells; histories of 2 (thorough 3) operations. Longer histories
-// over fewer row values: VerifC51EditKeylessDuplicates.
+// keyed by HashRow, duplicate rows counted in ROW_COUNT. n from {1, 2};
+// histories of 2 operations over all 7 document cells (thorough: those, and 3
+// operations over the first 5 cells). Longer histories over fewer row values:
+// VerifC51EditKeylessDuplicates.
 func VerifC51EditKeyless() {
 	f := c51eNewFixture("c51.edit.keyless", c51eKindKeyless, c51eCi("klcoll"), nil)
 	if f == nil {
 		return
 	}
 	f.check()
-	ops := nd.Bound(2, 3)
-	gen := c51eGenKeyless(len(c51eDocs), []int64{1, 2})
+	ops, ndocs := 2, len(c51eDocs)
+	if nd.Tier() == 1 && nd.Pick("klmode", 2) == 1 {
+		ops, ndocs = 3, 5
+	}
+	gen := c51eGenKeyless(ndocs, []int64{1, 2})
 	for k := 0; k < ops; k++ {
 		f.step(k, gen)
 	}
@@ -1034,7 +1039,7 @@ func VerifC51EditUniqueKey() {
 // VerifC51EditTwoIndexes: keyless parent (doc TEXT, doc2 TEXT) with two
 // FULLTEXT indexes, ft(doc, doc2) (a two-column document) and ft2(doc2): the
 // editor maintains both table sets per operation. Histories of 3 operations;
-// doc from {'aaa', NULL}, doc2 from {'bbb aaa', NULL} (thorough: both from
+// doc from {'aaa', NULL}, doc2 from {'bbb aaa', NULL} (thorough: doc from
 // {'aaa', NULL, 'bbb aaa'}).
 func VerifC51EditTwoIndexes() {
 	f := c51eNewFixture("c51.edit.two-index", c51eKindTwoIndex, c51eCi("ticoll"), nil)
@@ -1044,7 +1049,7 @@ func VerifC51EditTwoIndexes() {
 	f.check()
 	gen := c51eGenTwoDocs([]int{0, 1}, []int{2, 1})
 	if nd.Tier() == 1 {
-		gen = c51eGenTwoDocs([]int{0, 1, 2}, []int{0, 1, 2})
+		gen = c51eGenTwoDocs([]int{0, 1, 2}, []int{2, 1})
 	}
 	for k := 0; k < 3; k++ {
 		f.step(k, gen)
@@ -1052,15 +1057,15 @@ func VerifC51EditTwoIndexes() {
 }
 
 // VerifC51EditBuildIndex: the index is created on a table that already holds
-// 0..2 rows (CreateFulltextIndexes populates the index tables through the
+// 0..2 rows (fulltext.CreateFulltextIndexes populates the index tables through the
 // editor), then one more operation. Quick: the first 3 document cells,
-// keyless n = 1 (so duplicates are frequent); thorough: all 7 cells, keyless
-// n from {1, 2}.
+// keyless n = 1 (so duplicates are frequent); thorough: the first 5 cells,
+// keyless n from {1, 2}.
 func VerifC51EditBuildIndex() {
 	kind := nd.Pick("bkind", 2) // primary key / keyless
 	ci := c51eCi("bcoll")
 	npre := nd.IntRange("bpre", 0, 2)
-	ndocs := nd.Bound(3, len(c51eDocs))
+	ndocs := nd.Bound(3, 5)
 	ns := []int64{1}
 	if nd.Tier() == 1 {
 		ns = []int64{1, 2}
